@@ -19,6 +19,7 @@ import (
 	"sort"
 	"strconv"
 	"sync"
+	"syscall"
 	"time"
 
 	"github.com/pion/transport/v4"
@@ -226,7 +227,9 @@ func (n *Net) pickPort(ip net.IP, taken func(string) bool) int {
 	return 0
 }
 
-var errAddrInUse = errors.New("simnet: bind: address already in use")
+// errAddrInUse is what a bind to an occupied address returns: like the kernel's, it unwraps to syscall.EADDRINUSE
+// (code under test may tell it apart with errors.Is).
+var errAddrInUse error = &net.OpError{Op: "listen", Net: "simnet", Err: os.NewSyscallError("bind", syscall.EADDRINUSE)}
 var errBindFail = errors.New("simnet: bind: injected failure")
 var errFamily = errors.New("simnet: address family mismatch for network")
 
